@@ -150,6 +150,52 @@ pub mod io {
             Ok(())
         }
     }
+    /// std::io::BufWriter: bytes stay in the buffer until flush() or drop; `get_ref`/`get_mut` reach the inner
+    /// writer without flushing (so an fsync through get_ref() syncs a file that has not received the bytes yet).
+    pub struct BufWriter<W: Write> {
+        inner: Option<W>,
+        pending: Option<Vec<u8>>,
+    }
+    impl<W: Write> BufWriter<W> {
+        pub fn new(inner: W) -> Self {
+            BufWriter { inner: Some(inner), pending: None }
+        }
+        pub fn with_capacity(_n: usize, inner: W) -> Self {
+            Self::new(inner)
+        }
+        pub fn get_ref(&self) -> &W {
+            self.inner.as_ref().unwrap()
+        }
+        pub fn get_mut(&mut self) -> &mut W {
+            self.inner.as_mut().unwrap()
+        }
+        pub fn into_inner(mut self) -> core::result::Result<W, Error> {
+            self.flush()?;
+            Ok(self.inner.take().unwrap())
+        }
+    }
+    impl<W: Write> Write for BufWriter<W> {
+        fn write_all(&mut self, buf: &[u8]) -> Result<()> {
+            // (contents are abstracted to their first byte; one pending chunk is enough)
+            if self.pending.is_none() {
+                self.pending = Some(buf.to_vec());
+            }
+            Ok(())
+        }
+        fn flush(&mut self) -> Result<()> {
+            if let Some(p) = self.pending.take() {
+                self.inner.as_mut().unwrap().write_all(&p)?;
+            }
+            Ok(())
+        }
+    }
+    impl<W: Write> Drop for BufWriter<W> {
+        fn drop(&mut self) {
+            if self.inner.is_some() {
+                let _ = self.flush();
+            }
+        }
+    }
     pub struct Cursor(pub Vec<u8>);
     impl Cursor {
         pub fn new(v: Vec<u8>) -> Self {
@@ -248,6 +294,28 @@ pub mod fs {
         unsafe {
             match FS.vol[n] {
                 Some(i) => Ok(vec![FS.content[i as usize]]),
+                None => Err(io::Error(2)),
+            }
+        }
+    }
+    pub struct Metadata {
+        len: u64,
+    }
+    impl Metadata {
+        pub fn len(&self) -> u64 {
+            self.len
+        }
+        pub fn is_file(&self) -> bool {
+            true
+        }
+    }
+    /// std::fs::metadata: existence + length (contents are one byte long in this model, 0 if empty)
+    pub fn metadata<P: AsRef<PathBuf>>(p: P) -> io::Result<Metadata> {
+        step()?;
+        let n = p.as_ref().name;
+        unsafe {
+            match FS.vol[n] {
+                Some(i) => Ok(Metadata { len: if FS.content[i as usize] == super::EMPTY { 0 } else { 1 } }),
                 None => Err(io::Error(2)),
             }
         }
